@@ -31,6 +31,11 @@ type GenSeamReport struct {
 	ClockSites []string // file:line of every redirected clock read
 	RandFiles  []string
 	LoadSites  []string // packages.Load calls memoised (in-process driver only)
+	GoSites    []string // go statements turned into simulated tasks (in-process driver only)
+	// GoroutinesOwned is false when moq's code uses channel operations: its
+	// goroutines then stay real and only repetition can expose their scheduling
+	GoroutinesOwned bool
+	GoroutinesNote  string
 }
 
 // SeamGenerator rewrites the scratch copy of moq rooted at dir (type-driven,
@@ -38,7 +43,7 @@ type GenSeamReport struct {
 // simhook.Keys(m) instead, time.Now/Since/Until read the simulated clock, and
 // math/rand is redirected to a clock-derived stand-in. env is the go command
 // environment used to load the packages.
-func SeamGenerator(dir string, env []string, memoLoad bool) (*GenSeamReport, error) {
+func SeamGenerator(dir string, env []string, memoLoad bool, ownGoroutines bool) (*GenSeamReport, error) {
 	rep := &GenSeamReport{}
 	cfg := &packages.Config{
 		Mode: packages.NeedName | packages.NeedFiles | packages.NeedCompiledGoFiles | packages.NeedSyntax |
@@ -49,6 +54,36 @@ func SeamGenerator(dir string, env []string, memoLoad bool) (*GenSeamReport, err
 	pkgs, err := packages.Load(cfg, "./...")
 	if err != nil {
 		return nil, err
+	}
+	rep.GoroutinesOwned = ownGoroutines
+	if ownGoroutines {
+		for _, p := range pkgs {
+			for i, f := range p.Syntax {
+				if i >= len(p.CompiledGoFiles) || !strings.HasPrefix(p.CompiledGoFiles[i], dir) || strings.HasSuffix(p.CompiledGoFiles[i], "_test.go") {
+					continue
+				}
+				ast.Inspect(f, func(n ast.Node) bool {
+					switch t := n.(type) {
+					case *ast.SendStmt, *ast.SelectStmt:
+						rep.GoroutinesOwned = false
+					case *ast.UnaryExpr:
+						if t.Op == token.ARROW {
+							rep.GoroutinesOwned = false
+						}
+					case *ast.RangeStmt:
+						if tt := p.TypesInfo.TypeOf(t.X); tt != nil {
+							if _, ok := tt.Underlying().(*types.Chan); ok {
+								rep.GoroutinesOwned = false
+							}
+						}
+					}
+					return true
+				})
+			}
+		}
+		if !rep.GoroutinesOwned {
+			rep.GoroutinesNote = "moq's code uses channel operations, which the simulator does not own: goroutines stay real"
+		}
 	}
 	for _, p := range pkgs {
 		if len(p.Errors) > 0 {
@@ -65,10 +100,21 @@ func SeamGenerator(dir string, env []string, memoLoad bool) (*GenSeamReport, err
 			rel, _ := filepath.Rel(dir, path)
 			n := 0
 			var unsupported error
-			dirty, usesHook, usesLoad := false, false, false
+			dirty, usesHook, usesLoad, usesRt := false, false, false, false
 			// post-order, so that nested ranges are rewritten before the enclosing one is replaced
 			astutil.Apply(f, nil, func(c *astutil.Cursor) bool {
 				switch t := c.Node().(type) {
+				case *ast.GoStmt:
+					if rep.GoroutinesOwned {
+						rep.GoSites = append(rep.GoSites, fmt.Sprintf("%s:%d", rel, p.Fset.Position(t.Pos()).Line))
+						c.Replace(&ast.ExprStmt{X: &ast.CallExpr{
+							Fun: &ast.SelectorExpr{X: ast.NewIdent(simrtName), Sel: ast.NewIdent("Go")},
+							Args: []ast.Expr{&ast.FuncLit{Type: &ast.FuncType{Params: &ast.FieldList{}},
+								Body: &ast.BlockStmt{List: []ast.Stmt{&ast.ExprStmt{X: t.Call}}}}},
+						}})
+						usesRt = true
+						dirty = true
+					}
 				case *ast.RangeStmt:
 					tt := p.TypesInfo.TypeOf(t.X)
 					if tt == nil {
@@ -124,6 +170,9 @@ func SeamGenerator(dir string, env []string, memoLoad bool) (*GenSeamReport, err
 			if usesLoad {
 				astutil.AddNamedImport(p.Fset, f, simloadName, SimloadPath)
 			}
+			if usesRt {
+				astutil.AddNamedImport(p.Fset, f, simrtName, SimrtPath)
+			}
 			// the clock rewrite may have left "time" unused
 			if !astutil.UsesImport(f, "time") {
 				astutil.DeleteImport(p.Fset, f, "time")
@@ -137,7 +186,12 @@ func SeamGenerator(dir string, env []string, memoLoad bool) (*GenSeamReport, err
 			}
 		}
 	}
-	changed, err := RedirectImports(dir, map[string]string{"math/rand": SimrandPath})
+	redirect := map[string]string{"math/rand": SimrandPath}
+	if rep.GoroutinesOwned {
+		redirect["sync"] = SimsyncPath
+		redirect["sync/atomic"] = SimatomicPath
+	}
+	changed, err := RedirectImports(dir, redirect)
 	if err != nil {
 		return nil, err
 	}
